@@ -1,5 +1,6 @@
 import Bw.Json
 import Bw.Merge
+import Bw.Flags
 import Bw.Glob
 import Bw.Walk
 import Bw.Lemmas.WalkSim
@@ -170,6 +171,14 @@ def handle (j : Json) : Json :=
     match Bw.Glob.anyMatch gs p, Bw.Glob.anyMatch is p with
     | some a, some i => Json.mkObj [("allow", a), ("ignore", i)]
     | _, _ => Json.mkObj [("outside", true)]
+  | .ok "flags" =>
+    let lst (k : String) : List Text := (strList j k).map String.toList
+    match Flags.startup (lst "E") (lst "e") (lst "d") with
+    | .error _ => Json.mkObj [("err", "rejected")]
+    | .ok o =>
+      let set (l : List Text) : Json := Json.arr (((l.map String.ofList).eraseDups.toArray.qsort (· < ·)).map Json.str)
+      Json.mkObj [("ok", Json.mkObj [("extra", Json.mkObj (o.extra.map (fun (k, v) => (String.ofList k, tj v)))),
+                                     ("enabled", set o.enabled), ("disabled", set o.disabled)])]
   | .ok "linediff" =>
     Json.arr ((lineDiffOps (strD j "new") ((arr j "ops").filterMap opOf) none []).map (fun r => Json.arr #[r.1, r.2])).toArray
   | _ => Json.mkObj [("r", "bad-op")]
